@@ -289,7 +289,13 @@ class Machine:
                     raise Panic("step budget exhausted (suspected livelock)")
                 k = st.kind
                 if k == "assign":
-                    self.store_place(fr, st.a[0], self.rvalue(fr, st.a[1]))
+                    try:
+                        self.store_place(fr, st.a[0], self.rvalue(fr, st.a[1]))
+                    except Unsupported as e:
+                        if not getattr(e, "located", False):
+                            e.located = True
+                            e.args = ("%s @ %s bb%d: %s" % (e.args[0] if e.args else "", fn.name[-80:], bb, st.raw.strip()[:160]),)
+                        raise
                 elif k == "nop":
                     pass
                 elif k == "call":
